@@ -110,7 +110,7 @@ FAMILIES = {
                    "lef21/src/read.rs LefParser::parse_units (the loop over the eight unit statements, LefDbuPerMicron::try_new external), parse_size, parse_symmetries, parse_macro_class "
                    "(all six classes), parse_site_def (loop; derive_builder of LefSite with build() as an error of its own), parse_property (the token-type test), parse_pin_direction, "
                    "parse_geometry_mask, parse_iterate, parse_step_pattern, parse_point_list, parse_geometry_tail, parse_geometry (RECT / POLYGON / PATH, the point-count tests), "
-                   "expect_and_get_str, get_name, expect_ident = the functions of the same names of Lef/LefParse.v (monadic self; the helpers tied in the family lef_parse, "
+                   "parse_bus_bit_chars, parse_divider_char (the characters of the string literal, the length test, `chars[i]`), expect_and_get_str, get_name, expect_ident = the functions of the same names of Lef/LefParse.v (monadic self; the helpers tied in the family lef_parse, "
                    "parse_enum::<T> at each T, the lexer, txt, rust_decimal external; error value apart; the variant flag c_points_to_semi as the code is now)"),
     "lef_parse3": ("Lef/KernelsTieLefRead3_proofs.v", "Lef.KernelsTieLefRead3_proofs", "Properties/KernelsLef.v",
                    "lef21/src/read.rs LefParser::parse_layer_geometries (the loop over the options of the LAYER statement, the body loop over PATH / POLYGON / RECT / VIA / WIDTH with the "
@@ -125,10 +125,17 @@ FAMILIES = {
                         "lef21/src/read.rs LefParser::parse_macro, the whole function (the loop over CLASS / SITE / EEQ / FIXEDMASK / FOREIGN with the optional point and orientation / ORIGIN / SIZE / "
                         "PIN / OBS / PROPERTY / SYMMETRY / SOURCE with the version gate on the session version / DENSITY / END, derive_builder of LefMacro, the closing name, properties handed to the "
                         "builder) = parse_macro / macro_loop of Lef/LefParse.v, the callees through their own ties (families lef_parse2, lef_parse3, lef_parse_lib; parse_density: family lef_parse)"),
+    "lef_parse_via": ("Lef/KernelsTieLefReadV_proofs.v", "Lef.KernelsTieLefReadV_proofs", "Properties/KernelsLef.v",
+                      "lef21/src/read.rs LefParser::parse_via, the whole function (DEFAULT; VIARULE with the loop over CUTSIZE / LAYERS / CUTSPACING / ENCLOSURE / ROWCOL / ORIGIN / OFFSET, "
+                      "derive_builder of LefGeneratedViaDef and its build() in declaration order; RESISTANCE and the `while let` loop over LAYER, derive_builder of LefFixedViaDef; PROPERTY / END, "
+                      "the closing name, derive_builder of LefViaDef) = parse_via / gen_via_loop / gen_via_build / fixed_via_layers_loop of Lef/LefParse.v, parse_via_layer_geometries through "
+                      "its own tie (family lef_parse3)"),
 }
 # the file generated for each family (evidence text)
-GENERATED = {"lef_parse_macro": "KernelsLefRead2Gen.v", "lef_parse": "KernelsLefReadGen.v", "lef_parse2": "KernelsLefRead2Gen.v", "lef_parse3": "KernelsLefRead2Gen.v", "lef_parse_lib": "KernelsLefRead2Gen.v", "gds_write": "KernelsGdsWriteGen.v", "gds_read": "KernelsGdsReadGen.v", "gds_parse": "KernelsGdsReadGen.v", "gds_parse_e1": "KernelsGdsReadGen.v", "gds_parse_e2": "KernelsGdsReadGen.v", "gds_parse_lib": "KernelsGdsReadGen.v", "lef_write": "KernelsLefWriteGen.v", "lef_write_lib": "KernelsLefWriteGen.v", "tetris_period": "KernelsTetrisConvPGen.v", "tetris_proto": "KernelsTetrisProtoGen.v", "raw_gdsi": "KernelsRawGdsImportGen.v", "tetris_conv": "KernelsTetrisConvXGen.v, KernelsTetrisConvIGen.v", "raw_gdsx": "KernelsRawGdsExportGen.v", "order_generic": "KernelsOrderGen.v", "order_raw": "KernelsRawOrderGen.v", "order_tetris": "KernelsTetrisOrderGen.v, KernelsTetrisProtoOrderGen.v (and KernelsOrderGen.v)", "tetris_stack": "KernelsTetrisGen.v", "tetris_tracks": "KernelsTetrisGen.v", "tetris_place": "KernelsTetrisGen.v", "raw_lef": "KernelsRaw2Gen.v", "raw_proto": "KernelsRaw2Gen.v", "raw_gds": "KernelsRaw2Gen.v"}
+GENERATED = {"lef_parse_via": "KernelsLefRead2Gen.v", "lef_parse_macro": "KernelsLefRead2Gen.v", "lef_parse": "KernelsLefReadGen.v", "lef_parse2": "KernelsLefRead2Gen.v", "lef_parse3": "KernelsLefRead2Gen.v", "lef_parse_lib": "KernelsLefRead2Gen.v", "gds_write": "KernelsGdsWriteGen.v", "gds_read": "KernelsGdsReadGen.v", "gds_parse": "KernelsGdsReadGen.v", "gds_parse_e1": "KernelsGdsReadGen.v", "gds_parse_e2": "KernelsGdsReadGen.v", "gds_parse_lib": "KernelsGdsReadGen.v", "lef_write": "KernelsLefWriteGen.v", "lef_write_lib": "KernelsLefWriteGen.v", "tetris_period": "KernelsTetrisConvPGen.v", "tetris_proto": "KernelsTetrisProtoGen.v", "raw_gdsi": "KernelsRawGdsImportGen.v", "tetris_conv": "KernelsTetrisConvXGen.v, KernelsTetrisConvIGen.v", "raw_gdsx": "KernelsRawGdsExportGen.v", "order_generic": "KernelsOrderGen.v", "order_raw": "KernelsRawOrderGen.v", "order_tetris": "KernelsTetrisOrderGen.v, KernelsTetrisProtoOrderGen.v (and KernelsOrderGen.v)", "tetris_stack": "KernelsTetrisGen.v", "tetris_tracks": "KernelsTetrisGen.v", "tetris_place": "KernelsTetrisGen.v", "raw_lef": "KernelsRaw2Gen.v", "raw_proto": "KernelsRaw2Gen.v", "raw_gds": "KernelsRaw2Gen.v"}
 TRANSLATOR = os.path.join(VERIF, "tools", "translate_rust_kernels.py")
+
+_TRANSLATED = None     # (rc, output) of the translator run of this process
 
 def _failing_lemma(out, coqdir):
     """(file, line, lemma name or None) of the first Coq error in a make log"""
@@ -163,7 +170,11 @@ def kernel_tie_leg(chk, family):
         print("KERNEL-TIE-BROKEN: property=%s obligation=%s %s" % (chk.pid, obligation, " ".join(msg.split())[:400]))
         sys.stdout.flush()
         return False
-    rc, out = sh([sys.executable, TRANSLATOR], timeout=300)
+    # one translator run per check: the repository does not change while a check runs, and a check has several kernel-tie legs
+    global _TRANSLATED
+    if _TRANSLATED is None:
+        _TRANSLATED = sh([sys.executable, TRANSLATOR], timeout=300)
+    rc, out = _TRANSLATED
     info["translator"] = out.strip()[-300:]
     mine = [l for l in out.splitlines() if l.startswith("FAILED family=%s " % family)]
     anyf = [l for l in out.splitlines() if l.startswith("FAILED family=")]
